@@ -198,6 +198,24 @@ theorem C06_service_groups (L : Layer) (k : Option Byte) (s : Service) :
 example : (serviceGroups ⟨[svA, ⟨3, some ⟨5, [.other]⟩, [], []⟩, svB, ⟨4, none, [], []⟩], []⟩).map
     (fun g => (g.1, g.2.map (·.name))) = [(some 0x22, [1, 2]), (none, [3, 4])] := by decide
 
+/-- **C06 (service groups, leading constant)**: a service whose request starts with a constant parameter that puts the
+    bytes `b :: bs` on the wire is filed under `b` — the first *wire* byte of that constant, whatever its length, byte order
+    or base type (a 16 bit constant `0x0122` coded low byte first is `22 01` on the wire: group `0x22`) — and under no other
+    key, whatever parameters follow and whatever else the layer contains. -/
+theorem C06_service_groups_leading_constant (L : Layer) (s : Service) (r : Coding) (b : Byte) (bs : Bytes)
+    (ps : List Param) (hs : s ∈ L.services) (hr : s.request = some r) (hp : r.params = .const (b :: bs) :: ps)
+    (k : Option Byte) :
+    s ∈ groupOf (serviceGroups L) k ↔ k = some b := by
+  rw [C06_service_groups]
+  have h : sidOf s = some b := by simp [sidOf, Spec.requestPrefix, hr, hp, constPrefix]
+  simp [hs, h, eq_comm]
+
+/-- `CODED-CONST 0x0122`, 16 bit, `IS-HIGHLOW-BYTE-ORDER="false"` (wire bytes `22 01`) next to `CODED-CONST 0x01`: the
+    first is filed under `0x22`, not under the most significant byte of its value -/
+example : (serviceGroups ⟨[⟨1, some ⟨1, [.const [0x22, 0x01], .other]⟩, [], []⟩,
+                           ⟨2, some ⟨2, [.const [0x01], .other]⟩, [], []⟩], []⟩).map
+    (fun g => (g.1, g.2.map (·.name))) = [(some 0x22, [1]), (some 0x01, [2])] := by decide
+
 /-- **C06, non-strict mode = strict mode on unambiguous input**: `decode_message` raises the "cannot
     decode" error unconditionally, so the mode only matters when several own coding objects of one service
     match. Without such a service, `decode` and `decode_response` return literally the same result (same
